@@ -91,6 +91,9 @@ func checkC20(c *Ctx) {
 			if isSyncType(fld.Type()) {
 				return
 			}
+			if n == m.Impl && m.isCtorCode(f) {
+				return // constructor code of the election object: before publication
+			}
 			if allocs[n][f] || allocs[n][topFunc(f)] {
 				// constructor: before publication (accesses through the fresh object)
 				if _, isAlloc := fa.X.(*ssa.Alloc); isAlloc {
